@@ -202,6 +202,9 @@ def find(pid, f, repo, scratch):
         if c.get('also'):
             reqs.append((c['also'][0],) + tuple(c['also'][1].split('\t')))
             owner.append(ci)
+        for extra in c.get('also3', ()):
+            reqs.append((extra[0],) + tuple(extra[1].split('\t')))
+            owner.append(ci)
     outs = run_requests(binary, reqs)
     f['witness_search'] = dict(inputs_tried=len(fam), requests=len(reqs))
     by_case = {}
@@ -212,7 +215,9 @@ def find(pid, f, repo, scratch):
         if not gs:
             continue
         got = gs[0]
-        if case.get('also'):
+        if case.get('also3'):
+            bad = len(gs) == 3 and case['bad'](gs[0], gs[1], gs[2])
+        elif case.get('also'):
             bad = len(gs) == 2 and case['bad'](gs[0], gs[1])
         else:
             bad = case['bad'](gs) if case.get('repeat') else case['bad'](got)
@@ -446,6 +451,46 @@ def family_wrap():
         act = fl.get('action', False)
         yield dict(op='compile', input=text, expect='implicit print iff no action (here: %s)' % ('action present' if act else 'no action'),
                    bad=(lambda g, act=act: g[0] == 'OK' and (('(print-relative-path)' in g[1]) == act)))
+
+
+def policy_body(prog):
+    m = re.search(r'\(lipe-getopt-client-mount-path\)\n        \(lambda \(\) (.*)\)\n        \(lipe-getopt-required-attrs\)', prog, re.S)
+    return m.group(1) if m else None
+
+
+def family_wrap_body():
+    """C09: for an expression without an action the policy body is exactly (and E (print-relative-path)), where E is the text the
+    same expression compiles to as the left operand of an explicit `-a -quit` (that one has an action, so nothing is added):
+    stacked and nested negations, all operators, through the parser and on directly built trees"""
+    def bad(g, g2):
+        if g[0] != 'OK' or g2[0] != 'OK':
+            return False
+        b, b2 = policy_body(g[1]), policy_body(g2[1])
+        if b is None or b2 is None or not (b2.startswith('(and ') and b2.endswith(' (lipe-scan-break 0))')):
+            return b is None
+        e = b2[len('(and '):-len(' (lipe-scan-break 0))')]
+        return b != '(and ' + e + ' (print-relative-path))'
+    atoms = ['-true', '-false', '-name x', '-size +1k']
+    exprs = list(atoms)
+    for a in atoms:
+        exprs += ['! ' + a, '! ! ' + a, '! ! ! ' + a, '! ! ! ! ' + a, '! ( ! ' + a + ' )', '( ! ! ' + a + ' )']
+    for a in atoms:
+        for b_ in atoms:
+            for op in (' -a ', ' -o ', ' , ', ' '):
+                pair = a + op + b_
+                exprs += [pair, '! ( ' + pair + ' )', '! ! ( ' + pair + ' )', '! ' + a + op + '! ' + b_, '! ! ' + a + op + b_, a + op + '! ! ' + b_,
+                          '( ' + pair + ' ) -o ' + a, a + ' , ( ' + pair + ' )']
+    for e in exprs:
+        yield dict(op='compile', input=e, also=('compile', '( ' + e + ' ) -a -quit'), expect='body = (and E (print-relative-path)) with E the text of the expression itself', bad=bad)
+    leaves = ['Test(True)', 'Test(False)', 'Test(Name("x"))']
+    trees = list(leaves)
+    for l in leaves:
+        trees += ['Not(%s)' % l, 'Not(Not(%s))' % l, 'Not(Not(Not(%s)))' % l, 'Not(Not(Not(Not(%s))))' % l]
+        for r in leaves:
+            for op in ('And', 'Or', 'List'):
+                trees += ['%s(%s, %s)' % (op, l, r), 'Not(Not(%s(%s, %s)))' % (op, l, r), '%s(Not(Not(%s)), %s)' % (op, l, r), '%s(%s, %s(%s, %s))' % (op, l, op, r, l)]
+    for t in trees:
+        yield dict(op='ast', input=t, also=('ast', 'And(%s, Action(Quit))' % t), expect='body = (and E (print-relative-path)) with E the text of the tree itself', bad=bad)
 
 
 def family_refusal():
@@ -734,6 +779,206 @@ def family_renders():
             yield dict(op='renders', input='\t'.join([inp] + paths), expect='each rendering carries its own device path; the table is unchanged', bad=bad)
 
 
+class SchemeSyntax(Exception):
+    pass
+
+
+def scheme_read(prog):
+    """an independent reader for the lexical syntax the emitted programs use: returns (skeleton, strings) where the skeleton is the
+    program text with every string literal replaced by "" and `strings` are their decoded values, in order; raises SchemeSyntax
+    on an unterminated string, an unknown escape, a comment, or unbalanced parentheses outside strings"""
+    out, strings, i, depth = [], [], 0, 0
+    n = len(prog)
+    simple = {'\\': '\\', '"': '"', 'n': '\n', 't': '\t', 'a': '\a', 'b': '\b', 'f': '\f', 'r': '\r', 'v': '\v', '0': '\0'}
+    while i < n:
+        c = prog[i]
+        if c == '"':
+            i += 1
+            cur = []
+            while True:
+                if i >= n:
+                    raise SchemeSyntax('unterminated string')
+                d = prog[i]
+                if d == '"':
+                    i += 1
+                    break
+                if d == '\\':
+                    if i + 1 >= n:
+                        raise SchemeSyntax('unterminated escape')
+                    e = prog[i + 1]
+                    if e in simple:
+                        cur.append(simple[e]); i += 2
+                    elif e == 'x':
+                        m = re.match(r'([0-9a-fA-F]+);|([0-9a-fA-F]{2})', prog[i + 2:i + 12])
+                        if not m:
+                            raise SchemeSyntax('bad \\x escape')
+                        cur.append(chr(int(m.group(1) or m.group(2), 16))); i += 2 + m.end()
+                    else:
+                        raise SchemeSyntax('unknown escape \\%s' % e)
+                else:
+                    cur.append(d); i += 1
+            strings.append(''.join(cur))
+            out.append('""')
+        elif c == '#' and i + 1 < n and prog[i + 1] == '\\':
+            m = re.match(r'#\\(x[0-9a-fA-F]+|[A-Za-z]+|.)', prog[i:], re.S)
+            out.append(m.group(0)); i += m.end()
+        elif c == ';':
+            raise SchemeSyntax('comment outside a string')
+        else:
+            if c == '(':
+                depth += 1
+            elif c == ')':
+                depth -= 1
+                if depth < 0:
+                    raise SchemeSyntax('unbalanced )')
+            out.append(c); i += 1
+    if depth != 0:
+        raise SchemeSyntax('unbalanced parentheses')
+    return ''.join(out), strings
+
+
+def rust_str(sv):
+    """a Rust string literal for the tree notation"""
+    out = []
+    for ch in sv:
+        if ch in '\\"':
+            out.append('\\' + ch)
+        elif ch == '\n':
+            out.append('\\n')
+        elif ch == '\t':
+            out.append('\\t')
+        elif ch == '\r':
+            out.append('\\r')
+        elif ord(ch) < 32:
+            out.append('\\u{%x}' % ord(ch))
+        else:
+            out.append(ch)
+    return '"' + ''.join(out) + '"'
+
+
+NONINTERFERENCE_REF = 'QZQ'
+
+
+def family_noninterference():
+    """C04 as stated: for every string-carrying primary and every user string over the hostile alphabet (exhaustive to length 2, some
+    longer), the emitted program (a) reads as Scheme, (b) has exactly the structure of the program compiled with the benign string
+    QZQ in the same place, and (c) its string literals decode to those of the benign program with QZQ replaced by the user string
+    (tildes doubled where the literal is a format template). Trees are built directly, so the string reaches the back end unchanged."""
+    import itertools
+    # (the characters `* ? [` — and `'` for -xattr-match — select the pattern form of a matcher on purpose; they are not in the alphabet)
+    alpha = ['"', '\\', '~', '%', '(', ')', ';', '#', '\n', '\x07', 'é', 'a', ' ', '{', '}']
+    words = [''] + alpha + [a + b for a, b in itertools.product(alpha, repeat=2)] + \
+            ['a"b\\', '\\"', '~a~%', '")) (lipe-scan-break 0) (("', '\\\\\\', '#\\"', '{mdt}', '{policy}"']
+    nl = 'Special(Newline)'
+    slots = ['Test(Name(@))', 'Test(InsensitiveName(@))', 'Test(Path(@))', 'Test(InsensitivePath(@))', 'Test(Pool(@))', 'Test(Xattr(@))',
+             'Test(XattrMatch(@, "v"))', 'Test(XattrMatch("n", @))', 'And(Test(Name(@)), Action(PrintNull))', 'And(Test(Pool(@)), Action(FilePrint("f")))',
+             'Action(PrintFormatted([Literal(@), %s]))' % nl, 'Action(PrintFormatted([Field(Name), Literal(@)]))',
+             'Action(PrintFormatted([Literal(@), Field(Name), Literal(@), %s]))' % nl,
+             'Action(FilePrintFormatted("f", [Literal(@)]))', 'Action(PrintFormatted([Field(XAttr(@)), %s]))' % nl, 'And(Test(Name(@)), Test(Xattr(@)))',
+             'Or(Test(Name(@)), Action(PrintFormatted([Literal(@)])))']
+    ref = NONINTERFERENCE_REF
+
+    def oracle(w):
+        def bad(g, g2, w=w):
+            if g[0] != 'OK' or g2[0] != 'OK':
+                return g[0] != g2[0] and 'PANIC' not in (g[0], g2[0])   # accepted with one string and refused with the other
+            try:
+                sk, strs = scheme_read(g[1])
+                sk2, strs2 = scheme_read(g2[1])
+            except SchemeSyntax:
+                return True
+            if sk != sk2 or len(strs) != len(strs2):
+                return True
+            pos = [m.start() for m in re.finditer('""', sk2)]
+            for k, (a, b) in enumerate(zip(strs, strs2)):
+                template = sk2[:pos[k]].endswith('(format #f ')
+                if a != b.replace(ref, w.replace('~', '~~') if template else w):
+                    return True
+            return (g[2] if len(g) > 2 else '').count('=') != (g2[2] if len(g2) > 2 else '').count('=')
+        return bad
+    for slot in slots:
+        for w in words + ([] if 'XattrMatch' in slot else ["'", "it's", "'\"'"]):
+            yield dict(op='ast', input=slot.replace('@', rust_str(w)), also=('ast', slot.replace('@', rust_str(ref))),
+                       expect='same structure as with the string QZQ; every literal decodes to its QZQ counterpart with the user string in place', bad=oracle(w))
+    # the device path
+    for w in words:
+        yield dict(op='ast', input='Test(Name("n"))\t\t' + w, also=('ast', 'Test(Name("n"))\t\t' + ref),
+                   expect='same structure as with the device QZQ; the device literal decodes to the path', bad=oracle(w))
+
+
+def perm_forms(scheme_text):
+    """(kind, mask, value) of the permission comparison in an emitted program"""
+    m = re.search(r'\(not \(= \(logand \(mode\) (\d+)\) 0\)\)', scheme_text)
+    if m:
+        return ('any', int(m.group(1)), 0)
+    m = re.search(r'\(= \(logand \(mode\) (\d+)\) (\d+)\)', scheme_text)
+    if m:
+        return ('masked', int(m.group(1)), int(m.group(2)))
+    return None
+
+
+TIER = 'quick'   # set by the engine: the thorough tier enumerates the exhaustive variants
+
+
+def family_perm(full=None):
+    """C08 (front end, bounded): the prefix of a -perm argument selects the check and nothing else — for every argument A, `-perm A`
+    compares all twelve bits with a value V, `-perm -A` must be "all bits of V set" and `-perm /A` "some bit of V set", with the same V
+    (all 4096 octal values in 3- and 4-digit spelling, all 315 single symbolic clauses, every two-clause list over a reduced
+    alphabet); an octal argument denotes its octal value or, beyond the twelve permission bits or on a longer digit run, is rejected;
+    symbolic lists without a `-` clause are also compared with chmod's rules (lists with `-` clauses: see the recorded finding F4)."""
+    if full is None:
+        full = TIER == 'thorough'
+
+    def rel(arg, value=None, reject=False):
+        def bad(g, g2, g3):
+            if 'PANIC' in (g[0], g2[0], g3[0]):
+                return True
+            if reject:
+                return g[0] == 'OK' or g2[0] == 'OK' or g3[0] == 'OK'
+            if g[0] != 'OK':
+                return value is not None or g2[0] == 'OK' or g3[0] == 'OK'
+            f, f2, f3 = perm_forms(g[1]), perm_forms(g2[1]) if g2[0] == 'OK' else None, perm_forms(g3[1]) if g3[0] == 'OK' else None
+            if f is None or f[0] != 'masked' or f[1] != 0o7777:
+                return True
+            v = f[2]
+            if value is not None and v != value:
+                return True
+            return f2 != ('masked', v, v) or f3 != ('any', v, 0)
+        return dict(op='compile', input='-perm ' + arg, also3=(('compile', '-perm -' + arg), ('compile', '-perm /' + arg)),
+                    expect=('rejected under every prefix' if reject else
+                            'no prefix: all twelve bits equal V%s; "-": (mode & V) = V; "/": (mode & V) != 0 — with the same V' % ('' if value is None else ' = %04o' % value)),
+                    bad=bad)
+    step = 1 if full else 1
+    for v in range(0, 4096, step):
+        yield rel('%04o' % v, v)
+        if v < 512:
+            yield rel('%03o' % v, v)
+    for arg in ('10000', '17777', '40000000644', '37777777777', '40000000000', '77777777777', '100000000000', '7' * 12, '7' * 16, '1' + '0' * 21, '7' * 22, '4' + '0' * 30 + '644'):
+        yield rel(arg, reject=True)
+    for arg in ('00644', '0000644', '0' * 20 + '7'):
+        yield dict(op='compile', input='-perm ' + arg, expect='its octal value, or rejected; never a panic',
+                   bad=(lambda g, arg=arg: g[0] == 'PANIC' or (g[0] == 'OK' and perm_forms(g[1]) != ('masked', 0o7777, int(arg, 8)))))
+    import itertools
+    whos = [''.join(c) for k in (1, 2, 3, 4) for c in itertools.combinations('ugoa', k)]     # 15
+    perms = [''.join(c) for k in (1, 2, 3) for c in itertools.combinations('rwx', k)]       # 7  -> 315 clauses
+    wmask = lambda w: 0o777 if 'a' in w else sum(m for c, m in (('u', 0o700), ('g', 0o070), ('o', 0o007)) if c in w)
+    pmask = lambda p: sum(m for c, m in (('r', 0o444), ('w', 0o222), ('x', 0o111)) if c in p)
+    clauses = [(w, o, p) for w in whos for o in '+-=' for p in perms]
+    for (w, o, p) in clauses:
+        arg = w + o + p
+        val = None if o == '-' else chmod(o, wmask(w), pmask(p), 0)
+        yield rel(arg, val)
+    small = [(w, o, p) for w in ('u', 'go', 'a') for o in '+-=' for p in ('r', 'wx', 'rwx')]
+    pool = clauses if full else small
+    for c1 in pool:
+        for c2 in pool:
+            arg = '%s%s%s,%s%s%s' % (c1 + c2)
+            val = None
+            if c1[1] != '-' and c2[1] != '-':
+                val = chmod(c2[1], wmask(c2[0]), pmask(c2[2]), chmod(c1[1], wmask(c1[0]), pmask(c1[2]), 0))
+            yield rel(arg, val)
+
+
 def family_ast_refusal():
     """C12 on directly built trees: a tree holding an unsupported primary, format directive or \\c is refused, every other tree of
     the family compiles"""
@@ -804,7 +1049,7 @@ def family_hostile():
 
 GENERATED = {
     'BOUNDED.clock_window': family_clock, 'C07.time_comp.text': family_clock,
-    'BOUNDED.parse_options': family_options, 'BOUNDED.parse_total': family_parse_total, 'BOUNDED.parse_numbers': family_parse_numbers,
+    'BOUNDED.parse_perm': family_perm, 'BOUNDED.parse_options': family_options, 'BOUNDED.parse_total': family_parse_total, 'BOUNDED.parse_numbers': family_parse_numbers,
     'ASSUME.printer_map': family_table, 'C10.table.keys': family_table,
     'C09.top.wrap_decision': family_wrap, 'C19.action.iff': family_wrap, 'C09.emit.structure': family_wrap,
     'C12.refusal.iff': family_refusal, 'C12.top.iff': family_refusal,
@@ -823,12 +1068,15 @@ FAMILY_RULES = [
     (r'^C19\.(action|frames)', (family_queries, family_frames)),
     (r'^C19\.(mult|secs|byte_size)|^C07\.byte_size', (family_units,)),
     (r'^C10\.top\.manager_choice|^C10\.table\.iff_framed|^C10\.top\.table_iff', (family_frames,)),
-    (r'^C20\.', (family_renders, family_hostile)),
+    (r'^C20\.', (family_renders, family_hostile, family_noninterference)),
+    (r'^C04\.|matcher\.text|file_port\.text|matcher_ref|printf_ref', (family_noninterference,)),
     (r'\.matcher\.|get_matcher|matcher_name|matcher_ref', (family_matchers, family_hostile, family_long, family_ast_structure)),
     (r'\.(printer|file_port|default_port)\.|get_printer|get_file_printer|printer_name|printer_ref|printf_ref|^C10\.(table|top|routing|terminator_text)|\.definitions$',
      (family_table, family_long, family_determinism, family_ast_structure)),
     (r'^C12\.', (family_refusal, family_ast_refusal)),
-    (r'^SAFETY\.|^C11\.budget', (family_panics, family_long, family_ast)),
+    (r'^C09\.|^C19\.action', (family_wrap, family_wrap_body)),
+    (r'^SAFETY\.|^C11\.budget', (family_panics, family_long, family_ast, family_perm)),
+    (r'^C08\.|^KANI\.c08', (family_perm,)),
     (r'^C04\.(placeholder|literal|snippet|format)|^C03\.type_list|^C07\.(size|time)|^C08\.', (family_ast_refusal, family_ast_structure)),
 ]
 
@@ -906,6 +1154,10 @@ BOUNDED_STANDINS = {
              'four single-character mutations at every position of 6 valid inputs, and long / non-ASCII words after 12 keywords: never a panic')],
     'C07': [('BOUNDED.parse_numbers', 'BOUNDED.parse_numbers', 'the digit-run conversions of find_parser (winnow try_map over str::parse: outside the verifier) — bounded '
              'stand-in: decimal arguments around 0, 2^31, 2^32, 2^64 and 10^30 for every numeric primary, with signs and leading zeros: exact in the tree or rejected')],
+    'C08': [('BOUNDED.parse_perm', 'BOUNDED.parse_perm', 'PermCheck::parse / Permission::parse (winnow alt/preceded/separated over the verified clause code: outside the verifier) — '
+             'bounded stand-in: for all 4096 octal values in 3- and 4-digit spelling, all 315 single clauses and two-clause lists (81 in the quick tier, all 99,225 in the '
+             'thorough tier), the prefix selects the check and nothing else (`-A` = all bits of V, `/A` = some bit of V, V the value of plain `A`); octal arguments '
+             'denote their value, longer or larger digit runs are rejected; lists without a `-` clause equal chmod\'s result')],
     'C10': [('BOUNDED.printer_map', 'ASSUME.printer_map',
              'DistributedSchemeManager::printer_map (iterator over the hash map: external_body) — bounded stand-in: all expressions of up to 3 '
              'output actions over 6 destination/terminator kinds; the table must be the inverse of the tag map')],
@@ -923,11 +1175,12 @@ def profile_agreement(repo, scratch):
         f['witness_error'] = 'could not build both profiles'
         return f
     reqs, seen = [], set()
-    for fam in (family_parse_total, family_parse_numbers, family_options, family_numbers, family_refusal, family_hostile, family_table, family_panics, family_long, family_ast):
+    for fam in (family_parse_total, family_parse_numbers, family_options, family_numbers, family_refusal, family_hostile, family_table, family_panics, family_long, family_ast, family_perm):
         for c in fam():
-            r = (c['op'],) + tuple(c['input'].split('\t'))
-            if r not in seen:
-                seen.add(r); reqs.append(r)
+            for op_, inp_ in [(c['op'], c['input'])] + ([c['also']] if c.get('also') else []) + list(c.get('also3', ())):
+                r = (op_,) + tuple(inp_.split('\t'))
+                if r not in seen:
+                    seen.add(r); reqs.append(r)
     for v in ('-size +16777216T', '-size 18446744073709551615T', '-size -1c', '-amin -5 -o -mtime +2', 'nope', '-perm 7777', '-perm 17777'):
         reqs.append(('compile', v))
     a, b = run_requests(dbg, reqs), run_requests(rel, reqs)
@@ -982,7 +1235,15 @@ def replay(record, repo):
         # re-evaluate the oracle of the family the input came from
         for case in cases_for(w.get('family') or ''):
             if case['input'] == inp and case['op'] == w.get('request', 'compile'):
-                bad = case['bad'](out) if case.get('repeat') else case['bad'](out[0])
+                comp = ([case['also']] if case.get('also') else []) + list(case.get('also3', ()))
+                if comp:
+                    # relational oracle: the companion requests are replayed too
+                    more = run_requests(binary, [(o,) + tuple(i_.split('\t')) for o, i_ in comp])
+                    for (o, i_), g_ in zip(comp, more):
+                        print('companion:', o, i_[:200], '->', [x[:200] for x in g_[:2]])
+                    bad = len(more) == len(comp) and case['bad'](out[0], *more)
+                else:
+                    bad = case['bad'](out) if case.get('repeat') else case['bad'](out[0])
                 print('still violates the clause on the current tree' if bad else 'no longer violates the clause on the current tree')
                 return 1 if bad else 0
         return 0
